@@ -13,7 +13,7 @@ use crate::common::*;
 macro_rules! evs {
     ($($n:ident),*) => { $(#[derive(Event, Serialize, Deserialize, Clone, Debug)] pub struct $n(pub u32, pub Vec<u8>);)* };
 }
-evs!(SA, SB, SC, CA, CB, CC);
+evs!(SA, SB, SC, CA, CB, CC, DS0, DS1, DS2, DC0, DC1, DC2);
 
 /// (channel, seq, payload) in arrival order, with the receiver frame number.
 #[derive(Resource, Default)]
@@ -28,13 +28,33 @@ fn payload(seq: u32, len: usize) -> Vec<u8> {
     (0..len).map(|i| (seq.wrapping_mul(31).wrapping_add(i as u32 * 7)) as u8).collect()
 }
 
-fn make_app() -> App {
+/// `layout` = (unused server events, unused client events) registered in front of the measured ones: the two directions
+/// then have different numbers of channels and the measured channels get higher ids.
+fn make_app(layout: (u8, u8)) -> App {
     let mut app = App::new();
     app.add_plugins((
         MinimalPlugins,
         RepliconPlugins.set(RepliconSharedPlugin { auth_method: AuthMethod::None }).set(ServerPlugin { tick_policy: TickPolicy::EveryFrame, ..Default::default() }),
         RepliconExampleBackendPlugins,
     ));
+    if layout.0 >= 1 {
+        app.add_server_event::<DS0>(Channel::Ordered);
+    }
+    if layout.0 >= 2 {
+        app.add_server_event::<DS1>(Channel::Unreliable);
+    }
+    if layout.0 >= 3 {
+        app.add_server_event::<DS2>(Channel::Unordered);
+    }
+    if layout.1 >= 1 {
+        app.add_client_event::<DC0>(Channel::Ordered);
+    }
+    if layout.1 >= 2 {
+        app.add_client_event::<DC1>(Channel::Unreliable);
+    }
+    if layout.1 >= 3 {
+        app.add_client_event::<DC2>(Channel::Unordered);
+    }
     app.add_server_event::<SA>(Channel::Ordered)
         .add_server_event::<SB>(Channel::Ordered)
         .add_server_event::<SC>(Channel::Unordered)
@@ -116,12 +136,16 @@ pub struct Case {
     #[serde(default)]
     pub clients: u8,
     pub batches: Vec<Batch>,
+    /// (unused server events, unused client events) registered before the measured ones, 0..=3 each
+    #[serde(default)]
+    pub layout: (u8, u8),
 }
 
 pub fn run(c: &Case) -> Outcome {
     let n = (c.clients as usize).clamp(1, 3);
-    let mut server = make_app();
-    let mut clients: Vec<App> = (0..n).map(|_| make_app()).collect();
+    let layout = (c.layout.0.min(3), c.layout.1.min(3));
+    let mut server = make_app(layout);
+    let mut clients: Vec<App> = (0..n).map(|_| make_app(layout)).collect();
     let sock = match ExampleServer::new(0) {
         Ok(s) => s,
         Err(e) => return Outcome::failed(Fail::new("infra.socket", format!("cannot open server socket: {e}"))),
@@ -325,7 +349,8 @@ fn case_strategy() -> impl Strategy<Value = Case> {
     let size = prop_oneof![3 => 0u16..40, 2 => 0u16..=1200, 1 => prop_oneof![Just(0u16), Just(1), Just(255), Just(256), Just(1199), Just(1200)]];
     let batch = (any::<bool>(), 0u8..3, proptest::collection::vec((0u8..3, size), 1..48), prop_oneof![2 => Just(1u8), 1 => 2u8..=4], proptest::option::weighted(0.12, 0u8..3))
         .prop_map(|(down, from, msgs, frames, poison)| Batch { down, from, msgs, frames, poison });
-    (1u8..=3, proptest::collection::vec(batch, 1..4)).prop_map(|(clients, batches)| Case { clients, batches })
+    let layout = prop_oneof![2 => Just((0u8, 0u8)), 3 => (0u8..=3, 0u8..=3)];
+    (1u8..=3, proptest::collection::vec(batch, 1..4), layout).prop_map(|(clients, batches, layout)| Case { clients, batches, layout })
 }
 
 pub struct C17;
@@ -347,7 +372,7 @@ impl Prop for C17 {
         }
     }
     fn rule(&self) -> String {
-        "case = 1..3 connected clients and 1..3 batches (server -> all clients by broadcast, or one client -> server), each 1..47 messages of 0..1200 payload bytes on 3 channels (2 ordered, 1 unordered) in one direction, queued in ONE sender frame or spread over 2..4 sender frames while the receiver is stalled, so they pile \
+        "case = 1..3 connected clients and 1..3 batches (server -> all clients by broadcast, or one client -> server), each 1..47 messages of 0..1200 payload bytes on 3 channels (2 ordered, 1 unordered) in one direction, with 0..3 further (unused) server and client events registered in front so that the directions have different channel counts and ids, queued in ONE sender frame or spread over 2..4 sender frames while the receiver is stalled, so they pile \
          up between two receiver frames; real loopback TCP sockets of the example backend, no conditioner; carried by independent events (seq, payload). oracle: per channel \
          the received (seq, payload) sequence equals the sent one (order, multiplicity, bytes), judged on the concatenated arrival sequence; only a message still missing 2 s \
          after sending counts as lost. non-trivial = >= 8 messages were handed to the receiver's game logic within one frame (measured on arrival)"
